@@ -380,9 +380,11 @@ class Interp:
                             if kind == 'yes':
                                 nxt.append(s2)
                             elif kind == 'maybe':
-                                nxt.append(s2)
-                                if s_.get('els') is not None:
-                                    abn.extend(x for x in self.ev(s_['els'], o.st) if x.kind != 'val')
+                                sy, sn = self.split_maybe(s_['pat'], o.val, o.st, s2)
+                                if sy is not None:
+                                    nxt.append(sy)
+                                if s_.get('els') is not None and sn is not None:
+                                    abn.extend(x for x in self.ev(s_['els'], sn) if x.kind != 'val')
                             else:
                                 if s_.get('els') is not None:
                                     abn.extend(x for x in self.ev(s_['els'], o.st) if x.kind != 'val')
